@@ -290,7 +290,7 @@ def c17(tier, seed):
              "name) and to-tar (parsed with the tar crate) are compared with the input files; wrong key, no key and a key for an unencrypted archive must make every "
              "content command exit non-zero and leave no output content; distinct = distinct case; non-trivial = >= 2 files or a pipeline step",
         musthit=["cmd:list", "cmd:list-vv", "cmd:cat", "cmd:extract-all", "cmd:extract-listed", "cmd:to-tar", "step:convert", "step:repair",
-                 "keyclause:wrong-key:list", "keyclause:no-key:cat", "keyclause:key-for-unencrypted-archive:repair"],
+                 "keyclause:wrong-key:list", "keyclause:no-key:cat", "keyclause:key-for-unencrypted-archive:repair", "name_longer_than_100_bytes"],
     )
 
 
